@@ -642,11 +642,11 @@ def _shadowed(stmts, free, name):
 
 # -- helper expansion ---------------------------------------------------------------------------------------------
 
-def _helper_candidates(defs):
+def _helper_candidates(defs, private_only=True):
     '''name -> FunctionDef for expandable private helpers among the given defs.'''
     out = {}
     for d in defs:
-        if not isinstance(d, ast.FunctionDef) or not d.name.startswith('_') or (d.name.startswith('__') and d.name.endswith('__')):
+        if not isinstance(d, ast.FunctionDef) or (private_only and not d.name.startswith('_')) or (d.name.startswith('__') and d.name.endswith('__')):
             continue
         decos = [ast.unparse(x) for x in d.decorator_list]
         if any(x not in ('staticmethod',) for x in decos):
@@ -657,14 +657,30 @@ def _helper_candidates(defs):
         body = [s for s in d.body if not (isinstance(s, ast.Expr) and isinstance(s.value, ast.Constant) and isinstance(s.value.value, str))]
         if not body or len(body) > 15:
             continue
-        if any(isinstance(n, (ast.FunctionDef, ast.AsyncFunctionDef, ast.Lambda, ast.ClassDef, ast.Yield, ast.YieldFrom, ast.Await, ast.Global, ast.Nonlocal))
+        if any(isinstance(n, (ast.AsyncFunctionDef, ast.ClassDef, ast.Yield, ast.YieldFrom, ast.Await, ast.Global, ast.Nonlocal))
                for s in body for n in ast.walk(s)):
             continue
         params = [x.arg for x in a.args]
         stored = {n.id for s in body for n in ast.walk(s) if isinstance(n, ast.Name) and isinstance(n.ctx, (ast.Store, ast.Del))}
+        stored |= {n.name for s in body for n in ast.walk(s) if isinstance(n, ast.FunctionDef)}
         if stored & set(params):
             continue    # a parameter is re-bound: substitution of the argument would be wrong
-        returns = [n for s in body for n in ast.walk(s) if isinstance(n, ast.Return)]
+        closures = [n for s in body for n in ast.walk(s) if isinstance(n, (ast.FunctionDef, ast.Lambda))]
+        if closures:
+            # closures of the helper move with its statements: allowed when a closure shadows nothing of the helper (its own parameters are
+            # not names of the helper) and the helper is more than one returned expression
+            if len(body) == 1:
+                continue
+            own = set()
+            for c in closures:
+                ca = c.args
+                if ca.defaults or ca.kw_defaults:
+                    own.add(None)
+                own |= {x.arg for x in ca.posonlyargs + ca.args + ca.kwonlyargs + ([ca.vararg] if ca.vararg else []) + ([ca.kwarg] if ca.kwarg else [])}
+            if None in own or own & (stored | set(params)):
+                continue
+        inner = {id(n) for c in closures if isinstance(c, ast.FunctionDef) for n in ast.walk(c) if n is not c}
+        returns = [n for s in body for n in ast.walk(s) if isinstance(n, ast.Return) and id(n) not in inner]
         if len(body) == 1 and isinstance(body[0], ast.Return) and body[0].value is not None:
             out[d.name] = ('expr', d, params, body)
         elif not returns:
@@ -691,10 +707,23 @@ def _module_helpers(tree):
                     ndefs[t.id] = ndefs.get(t.id, 0) + 1
                 elif isinstance(t, ast.Attribute):
                     ndefs[t.attr] = ndefs.get(t.attr, 0) + 1
+        elif isinstance(n, (ast.Import, ast.ImportFrom)):
+            for al in n.names:
+                nm = (al.asname or al.name).split('.')[0]
+                ndefs[nm] = ndefs.get(nm, 0) + 1
+        elif isinstance(n, ast.arg):
+            ndefs[n.arg] = ndefs.get(n.arg, 0) + 1
     out = {}
     for name, (kind, d, params, body) in _helper_candidates(tree.body).items():
         if ndefs.get(name) == 1:
             out[name] = (kind, d, params, body, None)
+    # closures: a function defined directly in the body of another function and called by name from that function or its other
+    # closures (the name is unique in the module, so every such call refers to it)
+    for f in ast.walk(tree):
+        if isinstance(f, (ast.FunctionDef, ast.AsyncFunctionDef)):
+            for name, (kind, d, params, body) in _helper_candidates(f.body, private_only=False).items():
+                if ndefs.get(name) == 1 and not d.decorator_list and name not in out:
+                    out[name] = (kind, d, params, body, None)
     for c in ast.walk(tree):
         if isinstance(c, ast.ClassDef):
             for name, (kind, d, params, body) in _helper_candidates(c.body).items():
@@ -833,7 +862,14 @@ def _expand_helpers(tree, only=None, hosts=None):
                     kind, d, mapping, body = m
                     tnames = {n.id for n in ast.walk(targets) if isinstance(n, ast.Name)} if targets is not None else set()
                     hlocals = {n.id for st in body for n in ast.walk(st) if isinstance(n, ast.Name) and isinstance(n.ctx, (ast.Store, ast.Del))}
-                    free = {n.id for st in body for n in ast.walk(st) if isinstance(n, ast.Name)} - set(mapping) - hlocals
+                    hlocals |= {n.name for st in body for n in ast.walk(st) if isinstance(n, ast.FunctionDef)}
+                    inclosure = {n.id for st in body for c_ in ast.walk(st) if isinstance(c_, (ast.FunctionDef, ast.Lambda)) for n in ast.walk(c_) if isinstance(n, ast.Name)}
+                    if any(p_ in inclosure and not (isinstance(a_, ast.Name) and counts.get(a_.id, 0) <= 1) for p_, a_ in mapping.items()):
+                        i += 1
+                        continue    # an argument read inside a closure of the helper is evaluated later than at the call: only a name that is bound once denotes the same value then
+                    cparams = {x.arg for st in body for c_ in ast.walk(st) if isinstance(c_, (ast.FunctionDef, ast.Lambda))
+                               for x in c_.args.posonlyargs + c_.args.args + c_.args.kwonlyargs + ([c_.args.vararg] if c_.args.vararg else []) + ([c_.args.kwarg] if c_.args.kwarg else [])}
+                    free = {n.id for st in body for n in ast.walk(st) if isinstance(n, ast.Name)} - set(mapping) - hlocals - cparams
                     if free & hostbound:
                         i += 1
                         continue    # a module-level name of the helper body would be captured by a local of the host
@@ -844,6 +880,8 @@ def _expand_helpers(tree, only=None, hosts=None):
                         for sub in ast.walk(st2):
                             if isinstance(sub, ast.Name) and sub.id in rename:
                                 sub.id = rename[sub.id]
+                            elif isinstance(sub, ast.FunctionDef) and sub.name in rename:
+                                sub.name = rename[sub.name]
                         relocate(st2, s)
                         news.append(st2)
                     if kind == 'block':
